@@ -195,6 +195,13 @@ def stored (z : Int) (b : Bound) : Int := b.getD z
 /-- `z` is the rank of the type's zero value (0 for numeric columns, below every rank for byte arrays: the empty string) -/
 def writerOrder (z : Int) (ix : Index) : Nat := boundaryOrder (ix.mins.map (stored z)) (ix.maxs.map (stored z))
 
+/-- the same with separate placeholders for the two lists: the byte-array indexers TRUNCATE the placeholder of
+    a null page with the bounds (column_index.go:534-551, 590-607), and truncating a max increments it, so a null
+    page of a FIXED_LEN_BYTE_ARRAY(n) column with a size limit below n stores 00..00 as min and 00..01 as max -/
+def writerOrder2 (zn zx : Int) (ix : Index) : Nat := boundaryOrder (ix.mins.map (stored zn)) (ix.maxs.map (stored zx))
+
+theorem writerOrder_eq (z : Int) (ix : Index) : writerOrder z ix = writerOrder2 z z ix := rfl
+
 /-! ### linear search is correct for every index; the dispatch never misses -/
 
 theorem lloop_test_eq (nf : Bool) (ix : Index) (v : Int) (i : Nat) :
@@ -298,11 +305,10 @@ theorem orderOf_pos {xs : List Int} (h : orderOf xs > 0) : isAsc xs = true := by
     · split at h <;> omega
   · omega
 
-/-- The flag the WRITER computes is truthful: if the column index it builds (null pages stored as the
-    zero value `z`) is flagged ASCENDING, has no null page, and every page has `min ≤ max`, then it is
-    `Ascending` in the sense `binarySearch_first` needs. -/
-theorem writerOrder_ascending (z : Int) (ix : Index) (hlen : ix.maxs.length = ix.mins.length)
-    (hw : writerOrder z ix = 1) (hnn : hasNull ix = false)
+/-- adjacent-pair ascending stored bounds, no null bound, `min ≤ max` per page ⇒ `Ascending` -/
+theorem ascending_of_isAsc (zn zx : Int) (ix : Index) (hlen : ix.maxs.length = ix.mins.length)
+    (hmn : isAsc (ix.mins.map (stored zn)) = true) (hmx : isAsc (ix.maxs.map (stored zx)) = true)
+    (hnn : hasNull ix = false)
     (hle : ∀ i a b, i < ix.n → minAt ix i = some a → maxAt ix i = some b → a ≤ b) :
     ∃ mn mx, Ascending ix mn mx := by
   simp only [hasNull, Bool.or_eq_false_iff] at hnn
@@ -311,17 +317,8 @@ theorem writerOrder_ascending (z : Int) (ix : Index) (hlen : ix.maxs.length = ix
   have hmax : ∀ i, i < ix.n → ∃ x, maxAt ix i = some x := fun i hi =>
     any_isNone_false_getD ix.maxs i hnn.2 (by simp only [Index.n] at hi; omega)
   refine ⟨fun i => (minAt ix i).getD 0, fun i => (maxAt ix i).getD 0, ?_⟩
-  -- both orderOf results are positive
-  have hpos : orderOf (ix.mins.map (stored z)) > 0 ∧ orderOf (ix.maxs.map (stored z)) > 0 := by
-    simp only [writerOrder, boundaryOrder] at hw
-    split at hw
-    · rename_i heq
-      split at hw
-      · rename_i hp; exact ⟨hp, by omega⟩
-      · split at hw <;> simp at hw
-    · simp at hw
-  have ha1 := isAsc_getD _ (orderOf_pos hpos.1)
-  have ha2 := isAsc_getD _ (orderOf_pos hpos.2)
+  have ha1 := isAsc_getD _ hmn
+  have ha2 := isAsc_getD _ hmx
   exact {
     len := hlen
     mins := fun i hi => by obtain ⟨x, hx⟩ := hmin i hi; simp [hx]
@@ -330,18 +327,56 @@ theorem writerOrder_ascending (z : Int) (ix : Index) (hlen : ix.maxs.length = ix
       obtain ⟨x, hx⟩ := hmin i (by omega)
       obtain ⟨y, hy⟩ := hmin j hj
       have := ha1 i j hij (by simpa [Index.n] using hj)
-      rw [getD_map_stored z ix.mins i x hx, getD_map_stored z ix.mins j y hy] at this
+      rw [getD_map_stored zn ix.mins i x hx, getD_map_stored zn ix.mins j y hy] at this
       simpa [hx, hy] using this
     smax := fun i j hij hj => by
       obtain ⟨x, hx⟩ := hmax i (by omega)
       obtain ⟨y, hy⟩ := hmax j hj
       have := ha2 i j hij (by simp only [Index.n] at hj; simp; omega)
-      rw [getD_map_stored z ix.maxs i x hx, getD_map_stored z ix.maxs j y hy] at this
+      rw [getD_map_stored zx ix.maxs i x hx, getD_map_stored zx ix.maxs j y hy] at this
       simpa [hx, hy] using this
     le := fun i hi => by
       obtain ⟨x, hx⟩ := hmin i hi
       obtain ⟨y, hy⟩ := hmax i hi
       have := hle i x y hi hx hy
       simpa [hx, hy] using this }
+
+/-- flagged ASCENDING by the writer ⇒ both stored bound lists pass the adjacent-pair check and there
+    are at least two pages (`orderOf` answers 0 for fewer) -/
+theorem writerOrder2_one (zn zx : Int) (ix : Index) (hw : writerOrder2 zn zx ix = 1) :
+    isAsc (ix.mins.map (stored zn)) = true ∧ isAsc (ix.maxs.map (stored zx)) = true ∧ 1 < ix.n := by
+  have hpos : orderOf (ix.mins.map (stored zn)) > 0 ∧ orderOf (ix.maxs.map (stored zx)) > 0 := by
+    simp only [writerOrder2, boundaryOrder] at hw
+    split at hw
+    · rename_i heq
+      split at hw
+      · rename_i hp; exact ⟨hp, by omega⟩
+      · split at hw <;> simp at hw
+    · simp at hw
+  refine ⟨orderOf_pos hpos.1, orderOf_pos hpos.2, ?_⟩
+  have h := hpos.1
+  unfold orderOf at h
+  split at h
+  · rename_i hl; simpa [Index.n] using hl
+  · omega
+
+theorem writerOrder_one (z : Int) (ix : Index) (hw : writerOrder z ix = 1) :
+    isAsc (ix.mins.map (stored z)) = true ∧ isAsc (ix.maxs.map (stored z)) = true ∧ 1 < ix.n :=
+  writerOrder2_one z z ix hw
+
+theorem writerOrder2_ascending (zn zx : Int) (ix : Index) (hlen : ix.maxs.length = ix.mins.length)
+    (hw : writerOrder2 zn zx ix = 1) (hnn : hasNull ix = false)
+    (hle : ∀ i a b, i < ix.n → minAt ix i = some a → maxAt ix i = some b → a ≤ b) :
+    ∃ mn mx, Ascending ix mn mx :=
+  ascending_of_isAsc zn zx ix hlen (writerOrder2_one zn zx ix hw).1 (writerOrder2_one zn zx ix hw).2.1 hnn hle
+
+/-- The flag the WRITER computes is truthful: if the column index it builds (null pages stored as the
+    zero value `z`) is flagged ASCENDING, has no null page, and every page has `min ≤ max`, then it is
+    `Ascending` in the sense `binarySearch_first` needs. -/
+theorem writerOrder_ascending (z : Int) (ix : Index) (hlen : ix.maxs.length = ix.mins.length)
+    (hw : writerOrder z ix = 1) (hnn : hasNull ix = false)
+    (hle : ∀ i a b, i < ix.n → minAt ix i = some a → maxAt ix i = some b → a ≤ b) :
+    ∃ mn mx, Ascending ix mn mx :=
+  writerOrder2_ascending z z ix hlen hw hnn hle
 
 end PqModel.Search
